@@ -102,7 +102,7 @@ func exec(t []string) string {
 	case "reset":
 		lih = 0
 		return sim.Exec(t)
-	case "deliver", "deliverc":
+	case "deliver", "deliverc", "reorgto":
 		before := sim.N.ActiveChain()
 		out := sim.Exec(t)
 		after := sim.N.ActiveChain()
@@ -253,7 +253,41 @@ func one(g *hx.Gen) {
 		}
 		tip, _ := sim.N.Tip()
 		if tip == sim.BranchTip(br).Hash() {
-			trunk = br
+			trunk, br = br, trunk // br is now the detached old chain
+		}
+		// the exported BlockChain.ReorganizeChain (DPoS: a confirmed block on a fork) on an indexed block of the
+		// other branch: its tip (behind, level or far ahead) or a block in its middle (a branch that attaches fewer
+		// blocks than it detaches). No work comparison there — only the irreversibility guard stands in the way.
+		if r.Chance(60) && len(br.Blocks) > 0 {
+			for k := 1 + r.Intn(2); k > 0; k-- {
+				other := br
+				forkAt := 0
+				for forkAt < len(trunk.Blocks) && forkAt < len(br.Blocks) && trunk.Blocks[forkAt].Hash() == br.Blocks[forkAt].Hash() {
+					forkAt++
+				}
+				if forkAt >= len(other.Blocks) {
+					break
+				}
+				idx := len(other.Blocks) - 1
+				if r.Chance(50) {
+					idx = forkAt + r.Intn(len(other.Blocks)-forkAt)
+				}
+				target := other.Blocks[idx]
+				if r.Chance(30) { // the guard's inputs change between the attempts
+					d := r.Intn(2)
+					g.Emit("irr %d %d %d", r.Intn(len(trunk.Blocks)+2), d, []int{1, len(trunk.Blocks), 1000000}[r.Intn(3)])
+					if d != 0 {
+						h.WithConfirm = false // dummy confirmations only travel in POW mode, where they are ignored
+					}
+				}
+				g.Emit("reorgto %s", regnet.ID(target.Hash()))
+				g.Emit("obs c h")
+				if tip, _ := sim.N.Tip(); tip == target.Hash() {
+					trunk, br = regnet.Fork(other, idx+1), trunk
+				} else if tip != sim.BranchTip(trunk).Hash() {
+					return // a switch that failed half-way (not expected with honest blocks): end of this history
+				}
+			}
 		}
 		// the node moves forward again
 		for k := r.Intn(3); k > 0; k-- {
